@@ -78,8 +78,8 @@ def invariants(sc):
 
 class C16(Prop):
     id = 'C16'
-    quick_cases = 300
-    thorough_cases = 8000
+    quick_cases = 1500
+    thorough_cases = 50000
     rule = ('random edit scripts of ~30 add/remove/rename/move state and add/remove/rotate transition calls (≈30 % '
             'invalid arguments: unknown names, existing names, descendants as new parent, final/history sources, …) on '
             'random valid charts; after every call the full public post-state (states, kinds, parent_for, children_for '
